@@ -99,6 +99,20 @@ def check_case(case, ctx):
         if fields_of(m2) != want or bytes(m2.info) != info:
             ctx.violation("lib.roundtrip", f"round trip changed the metadata: {core.short(fields_of(m2))}", case)
             return
+        # history: the blob that has just been decrypted with its key, presented with every other key, is still refused
+        ctx.mon("negative.blob")
+        for other in KEYS:
+            if other == case["key"]:
+                continue
+            try:
+                m3 = c2.decrypt_metadata(blob, key(other))
+            except ValueError:
+                continue
+            except Exception as e:  # noqa: BLE001
+                ctx.violation("negative.blob", f"blob of key {case['key']} under key {other} (after a successful decryption with its own key): {type(e).__name__}: {e} instead of ValueError", case)
+                return
+            ctx.violation("negative.blob", f"blob of key {case['key']} accepted under key {other} after it had been decrypted with its own key: {core.short(fields_of(m3))}", case)
+            return
         # reference encrypts, library decrypts
         ctx.mon("ref.encrypt->lib.decrypt")
         rng = random.Random(case["seed"])
@@ -148,19 +162,23 @@ def check_case(case, ctx):
         blob = R.rsa_encrypt_pkcs1(rng, k.n, k.e, R.meta_pack(fields, b"HOST\tuser\tp.exe"))
         variant = case["variant"]
         kw = {"rsa_private_key": k}
-        if variant == "rsa+aes":
+        if variant == "aes_rand+hmac":
+            # the random bytes of the metadata given directly, together with an HMAC key argument: the session keys are the
+            # halves of SHA-256 over the random bytes all the same
+            kw = {"aes_rand": fields["aes_rand"], "hmac_key": bytes(16) if case["seed"] % 2 else b"H" * 16}
+        elif variant == "rsa+aes":
             kw["aes_key"] = d[:16]
         elif variant == "rsa+aes+hmac":
             kw.update(aes_key=d[:16], hmac_key=d[16:])
         try:
             dec = c2.C2Http(cfg, **kw)
             req = dec.transform_get.transform(c2.C2Data(metadata=blob), c2.HttpRequest(method=dec.get_verb, uri=dec.get_uris[0], params={}, headers={}, body=b""))
-            pk = list(dec.iter_recover_http(req))
+            pk = list(dec.iter_recover_http(req)) if "rsa_private_key" in kw else [None]
         except Exception as e:  # noqa: BLE001
             ctx.violation("derive.session", f"[{variant}] {type(e).__name__}: {e}", case)
             return
         got = (dec.beacon_keys.aes_key, dec.beacon_keys.hmac_key)
-        if len(pk) != 1 or bytes(pk[0].aes_rand) != fields["aes_rand"] or got != (d[:16], d[16:]):
+        if len(pk) != 1 or (pk[0] is not None and bytes(pk[0].aes_rand) != fields["aes_rand"]) or got != (d[:16], d[16:]):
             ctx.violation("derive.session", f"[{variant}] after the check-in the decoder's session keys are {core.short(got)}; SHA-256 halves of the metadata's random bytes are {core.short((d[:16], d[16:]))}", case)
             return
         ctx.ok(fp=("session", case["key"], case["seed"], variant), case=case, classes=(f"session:{variant}",))
@@ -275,7 +293,7 @@ def run_shard(shard, ctx):
         for i in range(shard["n"]):
             if ctx.out_of_time():
                 break
-            check_case({"op": "session", "key": rng.choice(KEYS), "seed": rng.getrandbits(32), "variant": ["rsa", "rsa+aes", "rsa+aes+hmac"][i % 3]}, ctx)
+            check_case({"op": "session", "key": rng.choice(KEYS), "seed": rng.getrandbits(32), "variant": ["rsa", "rsa+aes", "rsa+aes+hmac", "aes_rand+hmac"][i % 4]}, ctx)
     elif kind == "derive":
         for i in range(shard["n"]):
             if ctx.out_of_time():
